@@ -1,252 +1,2 @@
-(* GENERATED by harness/cmd/genconsts from the current /repo source. Do not edit. *)
-From Coq Require Import List ZArith NArith.
-From Coq.Strings Require Import Byte.
-Import ListNotations.
-
-(* imports/build.go translated by harness/go2coq (table: harness/cmd/genconsts/gen_imports_src.go).
-   Functions: src_matchTag, src_matchTags, src_ShouldBuild, src_MatchFile.  Vocabulary: Lib/GoSem.v, Lib/GoSemExt.v, Lib/GoSemUnicode.v, Imports/SrcLib.v. *)
-From Coq Require Import Bool.
-From GI Require Import Lib.Bytes Lib.GoSem Lib.GoSemExt Lib.GoSemUnicode Gen.ImportsConsts Imports.Build Imports.SrcLib.
-Import GoNotations.
-Local Open Scope go_scope.
-
-(* var slashslash *)
-Definition src_slashslash : bytes := [x2f; x2f].
-
-(* func matchTag: range loop 1 *)
-Fixpoint src_matchTag_loop1 {L : Type} (l : list (Z * Z)) {struct l}
-  : res (outcome unit L bool) :=
-  match l with
-  | [] => Ok (Normal tt)
-  | (_, v_c) :: l' =>
-    bindL (
-      if ((((negb (go_unicode_IsLetter v_c)) && (negb (go_unicode_IsDigit v_c))) && (negb (v_c =? 95%Z)%Z)) && (negb (v_c =? 46%Z)%Z)) then
-        Ok (Return false)
-      else
-      Ok (Normal tt)
-    ) (fun _ =>
-    src_matchTag_loop1 l')
-  end.
-
-(* func matchTag *)
-Definition src_matchTag (v_name : bytes) (v_tags : (bytes -> bool)) (v_want : bool)
-  : res bool :=
-  bindT (src_matchTag_loop1 (go_runes v_name)) (fun _ =>
-  if (((v_tags [x2a]) && (negb (bytes_eqb v_name []))) && (negb (bytes_eqb v_name [x69; x67; x6e; x6f; x72; x65]))) then
-    Ok true
-  else
-  let v_have : bool := (v_tags v_name) in
-  v_have <- (if (bytes_eqb v_name [x6c; x69; x6e; x75; x78]) then
-    let v_have : bool := (v_have || (v_tags [x61; x6e; x64; x72; x6f; x69; x64])) in
-    Ok v_have
-  else
-    Ok v_have
-  ) ;;
-  Ok (Bool.eqb v_have v_want)).
-
-(* func matchTags (recursive) *)
-Fixpoint src_matchTags (fuel : nat) (v_name : bytes) (v_tags : (bytes -> bool)) {struct fuel}
-  : res bool :=
-  match fuel with
-  | O => OutOfFuel
-  | S fuel =>
-  if (bytes_eqb v_name []) then
-    Ok false
-  else
-  let v_i : Z := (go_bytes_Index v_name [x2c]) in
-  if (v_i >=? 0%Z)%Z then
-    t1 <- go_slice v_name 0%Z v_i ;;
-    t2 <- src_matchTags fuel t1 v_tags ;;
-    let v_ok1 : bool := t2 in
-    t3 <- go_slice v_name (v_i + 1%Z)%Z (len v_name) ;;
-    t4 <- src_matchTags fuel t3 v_tags ;;
-    let v_ok2 : bool := t4 in
-    Ok (v_ok1 && v_ok2)
-  else
-  if (go_bytes_HasPrefix v_name [x21; x21]) then
-    Ok false
-  else
-  if (go_bytes_HasPrefix v_name [x21]) then
-    t7 <- (if ((len v_name) >? 1%Z)%Z then (t5 <- go_slice v_name 1%Z (len v_name) ;; t6 <- src_matchTag t5 v_tags false ;; Ok t6) else Ok false) ;;
-    Ok t7
-  else
-  t8 <- src_matchTag v_name v_tags true ;;
-  Ok t8
-  end.
-
-(* func ShouldBuild: for-loop 1 *)
-Fixpoint src_ShouldBuild_loop1 {L : Type} (fuel n : nat) (v_content : bytes) (v_end : Z) (v_p : bytes) {struct n}
-  : res (outcome (Z * bytes)%type L bool) :=
-  match n with
-  | O => OutOfFuel
-  | S n' =>
-    if ((len v_p) >? 0%Z)%Z then
-      bindL (
-        let v_line : bytes := v_p in
-        let v_i : Z := (go_bytes_IndexByte v_line x0a) in
-        '(v_p, v_line) <- (if (v_i >=? 0%Z)%Z then
-          t1 <- go_slice v_line 0%Z v_i ;;
-          t2 <- go_slice v_p (v_i + 1%Z)%Z (len v_p) ;;
-          let '(v_line, v_p) := (t1, t2) in
-          Ok (v_p, v_line)
-        else
-          t3 <- go_slice v_p (len v_p) (len v_p) ;;
-          let v_p : bytes := t3 in
-          Ok (v_p, v_line)
-        ) ;;
-        let v_line : bytes := (go_strings_TrimSpace v_line) in
-        if ((len v_line) =? 0%Z)%Z then
-          let v_end : Z := ((len v_content) - (len v_p))%Z in
-          Ok (Continue (v_end, v_p))
-        else
-        if (negb (go_bytes_HasPrefix v_line src_slashslash)) then
-          Ok (Break (v_end, v_p))
-        else
-        Ok (Normal (v_end, v_p))
-      ) (fun '(v_end, v_p) =>
-      src_ShouldBuild_loop1 fuel n' v_content v_end v_p)
-    else
-      Ok (Normal (v_end, v_p))
-  end.
-
-(* func ShouldBuild: range loop 3 *)
-Fixpoint src_ShouldBuild_loop3 {L : Type} (fuel : nat) (v_tags : (bytes -> bool)) (l : list bytes) (v_ok : bool) {struct l}
-  : res (outcome bool L bool) :=
-  match l with
-  | [] => Ok (Normal v_ok)
-  | v_tok :: l' =>
-    bindL (
-      t13 <- src_matchTags fuel v_tok v_tags ;;
-      v_ok <- (if t13 then
-        let v_ok : bool := true in
-        Ok v_ok
-      else
-        Ok v_ok
-      ) ;;
-      Ok (Normal v_ok)
-    ) (fun v_ok =>
-    src_ShouldBuild_loop3 fuel v_tags l' v_ok)
-  end.
-
-(* func ShouldBuild: for-loop 2 *)
-Fixpoint src_ShouldBuild_loop2 {L : Type} (fuel n : nat) (v_tags : (bytes -> bool)) (v_p : bytes) (v_allok : bool) {struct n}
-  : res (outcome (bytes * bool)%type L bool) :=
-  match n with
-  | O => OutOfFuel
-  | S n' =>
-    if ((len v_p) >? 0%Z)%Z then
-      bindL (
-        let v_line_1 : bytes := v_p in
-        let v_i_1 : Z := (go_bytes_IndexByte v_line_1 x0a) in
-        '(v_p, v_line_1) <- (if (v_i_1 >=? 0%Z)%Z then
-          t5 <- go_slice v_line_1 0%Z v_i_1 ;;
-          t6 <- go_slice v_p (v_i_1 + 1%Z)%Z (len v_p) ;;
-          let '(v_line_1, v_p) := (t5, t6) in
-          Ok (v_p, v_line_1)
-        else
-          t7 <- go_slice v_p (len v_p) (len v_p) ;;
-          let v_p : bytes := t7 in
-          Ok (v_p, v_line_1)
-        ) ;;
-        let v_line_1 : bytes := (go_strings_TrimSpace v_line_1) in
-        if (negb (go_bytes_HasPrefix v_line_1 src_slashslash)) then
-          Ok (Continue (v_p, v_allok))
-        else
-        t8 <- go_slice v_line_1 (len src_slashslash) (len v_line_1) ;;
-        let v_line_1 : bytes := (go_strings_TrimSpace t8) in
-        t10 <- (if ((len v_line_1) >? 0%Z)%Z then (t9 <- go_index v_line_1 0%Z ;; Ok (beq t9 x2b)) else Ok false) ;;
-        bindO (if t10 then
-          let v_f : (list bytes) := (go_strings_Fields v_line_1) in
-          t11 <- go_index_of v_f 0%Z ;;
-          bindO (if (bytes_eqb t11 [x2b; x62; x75; x69; x6c; x64]) then
-            let v_ok : bool := false in
-            t12 <- go_slice_of v_f 1%Z (len_of v_f) ;;
-            bindO (src_ShouldBuild_loop3 fuel v_tags t12 v_ok) (fun v_ok =>
-            v_allok <- (if (negb v_ok) then
-              let v_allok : bool := false in
-              Ok v_allok
-            else
-              Ok v_allok
-            ) ;;
-            Ok (Normal v_allok))
-          else
-            Ok (Normal v_allok)
-          ) (fun v_allok =>
-          Ok (Normal v_allok))
-        else
-          Ok (Normal v_allok)
-        ) (fun v_allok =>
-        Ok (Normal (v_p, v_allok)))
-      ) (fun '(v_p, v_allok) =>
-      src_ShouldBuild_loop2 fuel n' v_tags v_p v_allok)
-    else
-      Ok (Normal (v_p, v_allok))
-  end.
-
-(* func ShouldBuild *)
-Definition src_ShouldBuild (fuel : nat) (v_content : bytes) (v_tags : (bytes -> bool))
-  : res bool :=
-  let v_end : Z := 0%Z in
-  let v_p : bytes := v_content in
-  bindT (src_ShouldBuild_loop1 fuel fuel v_content v_end v_p) (fun '(v_end, v_p) =>
-  t4 <- go_slice v_content 0%Z v_end ;;
-  let v_content : bytes := t4 in
-  let v_p : bytes := v_content in
-  let v_allok : bool := true in
-  bindT (src_ShouldBuild_loop2 fuel fuel v_tags v_p v_allok) (fun '(v_p, v_allok) =>
-  Ok v_allok)).
-
-(* func MatchFile *)
-Definition src_MatchFile (v_name : bytes) (v_tags : (bytes -> bool))
-  : res bool :=
-  if (v_tags [x2a]) then
-    Ok true
-  else
-  let v_dot : Z := (go_bytes_Index v_name [x2e]) in
-  v_name <- (if (negb (v_dot =? (-1)%Z)%Z) then
-    t1 <- go_slice v_name 0%Z v_dot ;;
-    let v_name : bytes := t1 in
-    Ok v_name
-  else
-    Ok v_name
-  ) ;;
-  let v_i : Z := (go_bytes_Index v_name [x5f]) in
-  if (v_i <? 0%Z)%Z then
-    Ok true
-  else
-  t2 <- go_slice v_name v_i (len v_name) ;;
-  let v_name : bytes := t2 in
-  t3 <- go_strings_Split v_name [x5f] ;;
-  let v_l : (list bytes) := t3 in
-  let v_n : Z := (len_of v_l) in
-  t5 <- (if (v_n >? 0%Z)%Z then (t4 <- go_index_of v_l (v_n - 1%Z)%Z ;; Ok (bytes_eqb t4 [x74; x65; x73; x74])) else Ok false) ;;
-  v_l <- (if t5 then
-    t6 <- go_slice_of v_l 0%Z (v_n - 1%Z)%Z ;;
-    let v_l : (list bytes) := t6 in
-    Ok v_l
-  else
-    Ok v_l
-  ) ;;
-  let v_n_1 : Z := (len_of v_l) in
-  t8 <- (if (v_n_1 >=? 2%Z)%Z then (t7 <- go_index_of v_l (v_n_1 - 2%Z)%Z ;; Ok ((known known_os) t7)) else Ok false) ;;
-  t10 <- (if t8 then (t9 <- go_index_of v_l (v_n_1 - 1%Z)%Z ;; Ok ((known known_arch) t9)) else Ok false) ;;
-  if t10 then
-    t11 <- go_index_of v_l (v_n_1 - 2%Z)%Z ;;
-    t12 <- src_matchTag t11 v_tags true ;;
-    t15 <- (if t12 then (t13 <- go_index_of v_l (v_n_1 - 1%Z)%Z ;; t14 <- src_matchTag t13 v_tags true ;; Ok t14) else Ok false) ;;
-    Ok t15
-  else
-  t17 <- (if (v_n_1 >=? 1%Z)%Z then (t16 <- go_index_of v_l (v_n_1 - 1%Z)%Z ;; Ok ((known known_os) t16)) else Ok false) ;;
-  if t17 then
-    t18 <- go_index_of v_l (v_n_1 - 1%Z)%Z ;;
-    t19 <- src_matchTag t18 v_tags true ;;
-    Ok t19
-  else
-  t21 <- (if (v_n_1 >=? 1%Z)%Z then (t20 <- go_index_of v_l (v_n_1 - 1%Z)%Z ;; Ok ((known known_arch) t20)) else Ok false) ;;
-  if t21 then
-    t22 <- go_index_of v_l (v_n_1 - 1%Z)%Z ;;
-    t23 <- src_matchTag t22 v_tags true ;;
-    Ok t23
-  else
-  Ok true.
-
+(* NOT GENERATED: harness/cmd/genconsts could not translate the current source:
+   imports/build.go: imports/build.go:63:12: in ShouldBuild: not in the supported subset (type checker: undefined: bytes.Contains) *)
